@@ -199,6 +199,117 @@ where OC: Cache<pdf::error::Result<AnySync, Arc<PdfError>>>, SC: Cache<pdf::erro
     Ok(out)
 }
 
+
+// ------------------------------------------------------------------------------------------------
+// build: pages text + info text -> bytes, then the reloaded view
+//   page line:  mb=<l,b,r,t|-> cb=… tb=… rot=<int> ops=<letters> other=<canon dict>
+//   info line:  <Key>=<hex>   (Title Author Subject Keywords Creator Producer), `-` = no info dictionary
+use pdf::build::{PageBuilder, CatalogBuilder, PdfBuilder};
+use pdf::content::{Op, Point, Winding};
+
+fn rect_of(t: &str) -> Option<Option<Rectangle>> {
+    if t == "-" { return Some(None); }
+    let v: Vec<f32> = t.split(',').map(|x| x.parse::<f32>().ok()).collect::<Option<_>>()?;
+    if v.len() != 4 { return None; }
+    Some(Some(Rectangle { left: v[0], bottom: v[1], right: v[2], top: v[3] }))
+}
+fn op_of(c: char) -> Option<Op> {
+    Some(match c {
+        'q' => Op::Save, 'Q' => Op::Restore, 'B' => Op::BeginText, 'E' => Op::EndText, 'S' => Op::Stroke,
+        'f' => Op::Fill { winding: Winding::NonZero }, 'F' => Op::Fill { winding: Winding::EvenOdd },
+        'n' => Op::EndPath, 'h' => Op::Close,
+        'm' => Op::MoveTo { p: Point { x: 10., y: 20. } }, 'l' => Op::LineTo { p: Point { x: 30.5, y: 40. } },
+        'M' => Op::MoveTo { p: Point { x: 0., y: -7.25 } }, 'w' => Op::LineWidth { width: 2.5 },
+        _ => return None })
+}
+fn op_letter(o: &Op) -> char {
+    match o {
+        Op::Save => 'q', Op::Restore => 'Q', Op::BeginText => 'B', Op::EndText => 'E', Op::Stroke => 'S',
+        Op::Fill { winding: Winding::NonZero } => 'f', Op::Fill { winding: Winding::EvenOdd } => 'F',
+        Op::EndPath => 'n', Op::Close => 'h',
+        Op::MoveTo { p } if p.x == 10. && p.y == 20. => 'm', Op::LineTo { p } if p.x == 30.5 && p.y == 40. => 'l',
+        Op::MoveTo { p } if p.x == 0. && p.y == -7.25 => 'M', Op::LineWidth { width } if *width == 2.5 => 'w',
+        _ => '?' }
+}
+fn rect_text(r: &Option<Rectangle>) -> String {
+    match r { None => "-".into(), Some(r) => format!("{},{},{},{}", r.left, r.bottom, r.right, r.top) }
+}
+fn info_of(t: &[u8]) -> Option<Option<InfoDict>> {
+    if t == b"-" { return Some(None); }
+    let mut i = InfoDict::default();
+    for line in t.split(|&c| c == b'\n') {
+        if line.is_empty() { continue; }
+        let s = std::str::from_utf8(line).ok()?;
+        let (k, v) = s.split_once('=')?;
+        let mut b = vec![];
+        for j in (0..v.len()).step_by(2) { b.push(u8::from_str_radix(&v[j..j + 2], 16).ok()?); }
+        let ps = Some(PdfString::new(b.into()));
+        match k { "Title" => i.title = ps, "Author" => i.author = ps, "Subject" => i.subject = ps, "Keywords" => i.keywords = ps,
+                  "Creator" => i.creator = ps, "Producer" => i.producer = ps, _ => return None }
+    }
+    Some(Some(i))
+}
+fn info_text(i: &Option<InfoDict>) -> Vec<u8> {
+    match i {
+        None => b"-".to_vec(),
+        Some(i) => {
+            let mut out = String::new();
+            for (k, v) in [("Title", &i.title), ("Author", &i.author), ("Subject", &i.subject), ("Keywords", &i.keywords), ("Creator", &i.creator), ("Producer", &i.producer)] {
+                if let Some(s) = v { out.push_str(k); out.push('='); hexs(s.as_bytes(), &mut out); out.push('\n'); }
+            }
+            out.into_bytes()
+        }
+    }
+}
+
+fn build_bytes(f: &[Vec<u8>]) -> std::result::Result<Vec<u8>, String> {
+    let mut pages = vec![];
+    for line in fld(f, 1).split(|&c| c == b'\n') {
+        if line.is_empty() { continue; }
+        let s = std::str::from_utf8(line).map_err(|_| "badpage")?;
+        let mut pb = PageBuilder::default();
+        for part in s.splitn(6, ' ') {
+            let (k, v) = part.split_once('=').ok_or("badpage")?;
+            match k {
+                "mb" => pb.media_box = rect_of(v).ok_or("badrect")?,
+                "cb" => pb.crop_box = rect_of(v).ok_or("badrect")?,
+                "tb" => pb.trim_box = rect_of(v).ok_or("badrect")?,
+                "rot" => pb.rotate = v.parse().map_err(|_| "badrot")?,
+                "ops" => pb.ops = if v == "-" { vec![] } else { v.chars().map(op_of).collect::<Option<_>>().ok_or("badop")? },
+                "other" => pb.other = match uncanon(v.as_bytes()) { Some(Primitive::Dictionary(d)) => d, _ => return Err("badother".into()) },
+                _ => return Err("badpage".into()),
+            }
+        }
+        pages.push(pb);
+    }
+    let mut b = PdfBuilder::new(FileOptions::uncached());
+    if let Some(i) = info_of(fld(f, 2)).ok_or("badinfo")? { b = b.info(i); }
+    b.build(CatalogBuilder::from_pages(pages)).map_err(|e| ekind(&e))
+}
+
+fn view(bytes: Vec<u8>, cached: bool, out: &mut Vec<Vec<u8>>) -> std::result::Result<(), String> {
+    macro_rules! go { ($file:expr) => {{
+        let file = $file.map_err(|e| format!("load:{}", ekind(&e)))?;
+        let r = file.resolver();
+        out.push(format!("{}", file.num_pages()).into_bytes());
+        for p in file.pages() {
+            let p = p.map_err(|e| format!("page:{}", ekind(&e)))?;
+            let ops = match &p.contents { Some(c) => c.operations(&r).map_err(|e| format!("ops:{}", ekind(&e)))?, None => vec![] };
+            let letters: String = ops.iter().map(op_letter).collect();
+            let mb = p.media_box().ok();
+            let line = format!("mb={} cb={} tb={} rot={} ops={} other=", rect_text(&p.media_box), rect_text(&p.crop_box), rect_text(&p.trim_box),
+                               p.rotate, if letters.is_empty() { "-".to_string() } else { letters });
+            let _ = mb;
+            let mut l = line.into_bytes();
+            l.extend_from_slice(&canon(&Primitive::Dictionary(p.other.clone()), &r));
+            out.push(l);
+        }
+        out.push(info_text(&file.trailer.info_dict));
+        Ok(())
+    }} }
+    if cached { go!(FileOptions::cached().load(bytes)) } else { go!(FileOptions::uncached().load(bytes)) }
+}
+
 pub fn dispatch(mode: &str, f: &[Vec<u8>]) -> Option<R> {
     Some(match mode {
         "storage_history" => {
@@ -223,6 +334,17 @@ pub fn dispatch(mode: &str, f: &[Vec<u8>]) -> Option<R> {
                 }
             }
             Ok(vec![st.into_inner()])
+        }
+        "build" => {
+            let bytes = match build_bytes(f) { Ok(b) => b, Err(e) => return Some(Err(e)) };
+            let mut out = vec![bytes.clone()];
+            if let Err(e) = view(bytes, fld(f, 0).first() == Some(&b'c'), &mut out) { return Some(Err(e)); }
+            Ok(out)
+        }
+        // does the library itself accept these bytes as a document (every page reachable)?  "0" = yes
+        "accepts" => {
+            let mut out = vec![];
+            match view(f[0].clone(), false, &mut out) { Ok(()) => Ok(vec![b"0".to_vec()]), Err(e) => Err(e) }
         }
         _ => return None,
     })
